@@ -231,6 +231,7 @@ def normalise_syntax(msg):
 def check_one(job):
     ctxname, e = job
     st = smt.Stats()
+    smt.STATS = st  # path-feasibility queries of the machines are charged to this job too
     src = source_for(ctxname, e)
     out = {"job": job, "src": src, "status": None, "sigs": [], "stats": None, "counts": {}}
     o = classify(src + "\n")
